@@ -133,6 +133,9 @@ def case_export(run, i):
         fn = os.path.join(d, "dup", "Smp0.cns")      # same sample ID as the first file
         shutil.copy(files[0], fn)
         mfiles.append(fn)
+        # export seg lists every file's segments under its ID, also when two files share one
+        safe(E.export_seg, mfiles, False)
+        safe(E.export_seg, [fn] + files, bool(i % 8 == 2))
     try:
         table = E.merge_samples(mfiles)
         sids = [c for c in table.columns if c not in ("chromosome", "start", "end", "gene", "label")]
